@@ -96,3 +96,12 @@ impl<P> DerefMut for IoBuffer<P> {
         self.buffer.occupied_mut()
     }
 }
+
+/// Read-only verification hook (feature `verif`, off by default): exposes the buffer window.
+#[cfg(feature = "verif")]
+impl<P> IoBuffer<P> {
+    /// Returns `(window.start, window.end, capacity, poisoned)`.
+    pub fn verif_state(&self) -> (usize, usize, usize, bool) {
+        (self.buffer.window.start, self.buffer.window.end, self.buffer.capacity(), self.poisoned)
+    }
+}
